@@ -285,12 +285,24 @@ std::string run_terminal(std::string const &rest)
     test_channel ch;
     terminal t{ch, read_behaviour(bits)};
     std::string res;
+    bool reading = false;
+    std::function<void(tokens)> reader_cb;
+    reader_cb = [&](tokens) { t.async_read(reader_cb); };
     for (std::size_t i = 1; i < parts.size(); ++i) {
         reader r(parts[i]);
         std::string op = r.word();
         if (op.empty()) continue;
         ch.out.clear();
-        if (!apply_terminal_op(op, r, t)) { res += "?op "; continue; }
+        if (op == "in") {
+            // bytes arrive on the INPUT side of the same terminal between two output operations (a client is reading
+            // and re-arms from its callback); whatever they decode to, the output side must be unaffected
+            long n = r.num();
+            byte_storage data;
+            for (long k = 0; k < n; ++k) data.push_back(static_cast<byte>(r.num()));
+            if (!reading) { reading = true; t.async_read(reader_cb); }
+            ch.deliver(bytes{data.data(), data.size()});
+        }
+        else if (!apply_terminal_op(op, r, t)) { res += "?op "; continue; }
         std::string st;
         t << peek_state{&st};
         if (!res.empty()) res += " ; ";
